@@ -13,7 +13,8 @@
    initial destination content and the capacity (>= |D|) are arbitrary. *)
 From Coq Require Import ZArith List Lia Bool.
 From LZ4V Require Import Gen.Consts Spec.BlockSpec Model.Mem Model.Dec Model.DecApi.
-From LZ4V Require Import Proofs.DecRefineBase Proofs.DecRefineSafe Proofs.DecRefineTop Proofs.DecRefineApi.
+From LZ4V Require Import Model.DecStream.
+From LZ4V Require Import Proofs.DecRefineBase Proofs.DecRefineSafe Proofs.DecRefineTop Proofs.DecRefineApi Proofs.DecStreamRefine.
 Import ListNotations.
 Local Open Scope Z_scope.
 
@@ -37,6 +38,26 @@ Theorem C05_valid_decodes_safe :
 Proof. exact valid_decodes_nodict. Qed.
 Print Assumptions C05_valid_decodes_safe.
 
+(* LZ4_decompress_safe_continue (Model.DecStream: LZ4_streamDecode_t bookkeeping over one arena
+   memory, mode selection of lz4.c:2631-2668): one call on a valid block, in whichever of the
+   modes the bookkeeping selects - first call, rolling prefix (small prefix / 64 KB prefix /
+   prefix + external dictionary = "double dictionary"), or prefix turned into external
+   dictionary after a jump (ring-buffer wrap, double buffer, LZ4_setStreamDecode) - returns |D|,
+   leaves D at the destination in the arena and moves the bookkeeping to [next_state].
+   [stream_view am st dest] is the history the selected mode can reach ([stream_avail] bytes of
+   it), read from the arena at the time of the call. *)
+Theorem C05_continue_step :
+  forall (fastloop : bool) (am : mem) (st : sdstate) (srcm : mem) (B hist D : list Z) (dest cap : Z),
+    0 <= sd_prefixSize st -> 0 <= sd_extDictSize st ->
+    out_at (stream_view am st dest) 0 (rev hist) -> Z.of_nat (length hist) <= stream_avail st dest ->
+    strict_valid (lastn (Z.to_nat 65536) hist) B = Some D -> bytes B -> src_at srcm 0 B ->
+    Z.of_nat (length D) <= cap ->
+    let '(r, am', st', k) := decompress_safe_continue fastloop am st srcm (Z.of_nat (length B)) dest cap in
+    r = Z.of_nat (length D) /\ src_at am' dest D /\
+    (0 < Z.of_nat (length D) -> st' = next_state st dest r).
+Proof. exact continue_step. Qed.
+Print Assumptions C05_continue_step.
+
 (* finding F5: the block 10 41 00 00 50 62 63 64 65 66 (one literal, then a match with
    offset 0) is rejected by the specification but decoded "successfully" (return 10) by the
    model of LZ4_decompress_safe, with the fast loop on and off - exactly as the real code does. *)
@@ -58,3 +79,16 @@ Example C05_nonvacuous :
                           (store_list (mem_of_list 0 [7; 7; 7; 7; 7; 7; 7; 7; 7; 7; 7; 7; 7; 7]) (-3) hist) in
       (r, load_list m 0 14)) = (14, [97; 98; 120; 121; 122; 97; 98; 120; 121; 99; 100; 101; 102; 103]).
 Proof. vm_compute. split; reflexivity. Qed.
+
+(* Streaming: two blocks decoded back to back at arena address 1000; the second one (a match
+   of offset 14 reaching the whole first block) is decoded in rolling-prefix mode. *)
+Example C05_continue_nonvacuous :
+  let B1 := [35; 97; 98; 2; 0; 80; 99; 100; 101; 102; 103] in
+  let B2 := [10; 14; 0; 80; 49; 50; 51; 52; 53] in
+  let st0 := setStreamDecode 0 0 in
+  let '(r1, am1, st1, k1) := decompress_safe_continue true empty st0 (mem_of_list 0 B1) 11 1000 14 in
+  let '(r2, am2, st2, k2) := decompress_safe_continue true am1 st1 (mem_of_list 0 B2) 9 1014 19 in
+  (r1, r2, sd_prefixEnd st2, sd_prefixSize st2, load_list am2 1000 33)
+  = (14, 19, 1033, 33, [97; 98; 97; 98; 97; 98; 97; 98; 97; 99; 100; 101; 102; 103;
+                        97; 98; 97; 98; 97; 98; 97; 98; 97; 99; 100; 101; 102; 103; 49; 50; 51; 52; 53]).
+Proof. vm_compute. reflexivity. Qed.
